@@ -37,12 +37,15 @@ type EvictionLimiter interface {
 var _ EvictionLimiter = &evictorProxy{}
 var _ framework.Evictor = &evictorProxy{}
 
+// evictLock serializes Evict so that AllowEvict and Done act as one atomic check-and-count.
+// It is shared by all evictorProxy instances since the handle creates a new proxy for each Evictor() call
+// and the eviction limiter is shared by all profiles.
+var evictLock sync.Mutex
+
 type evictorProxy struct {
 	dryRun          bool
 	evictionLimiter EvictionLimiter
 	handle          *frameworkImpl
-	// evictLock serializes Evict so that AllowEvict and Done act as one atomic check-and-count
-	evictLock sync.Mutex
 }
 
 func (e *evictorProxy) Reset() {
@@ -102,8 +105,8 @@ func (e *evictorProxy) Evict(ctx context.Context, pod *corev1.Pod, opts framewor
 	if len(e.handle.evictPlugins) == 0 {
 		panic("No Evictor plugin is registered in the frameworkImpl.")
 	}
-	e.evictLock.Lock()
-	defer e.evictLock.Unlock()
+	evictLock.Lock()
+	defer evictLock.Unlock()
 	if !e.AllowEvict(pod) {
 		return false
 	}
